@@ -7,10 +7,32 @@ import bzformat as B
 import proc
 
 
+POSITIONS = {}     # stream name -> [(kind, base bit position)] of its blocks
+
+
+def delay_script(rng, name):
+    """A random scripted-delay schedule aimed at the races that matter for a
+    planted stream: who finishes first among the host block's master job, the
+    spurious job, the neighbouring blocks' jobs and their emit jobs."""
+    pos = POSITIONS.get(name)
+    if not pos:
+        return None
+    ent = []
+    for kind, p in pos:
+        word, bit = p // 32, p % 32
+        for site in ('retrbase', 'emit'):
+            if rng.random() < 0.5:
+                ms = rng.choice([50, 150, 300, 600, 1200])
+                ent.append('%s:%d:%d=%d' % (site, word, bit, ms))
+    rng.shuffle(ent)
+    return ','.join(ent) if ent else None
+
+
 def planted_streams(rng, quick=True):
     """(name, data, expected plaintext, tags): streams containing spurious
     copies of the 48-bit block magic."""
     out = []
+    POS = []
     magic = B.num_bits(48, B.BLOCK_MAGIC)
 
     def build(parts, level=9, trailing=b''):
@@ -21,16 +43,20 @@ def planted_streams(rng, quick=True):
         w.put(8, 0x30 + level)
         cc = 0
         plain = b''
+        POS.clear()
         for kind, arg in parts:
             if kind == 'real':
                 info = B.make_block(w, arg, level, rng,
                                     ntables=rng.randint(2, 6))
                 plain += arg
+                POS.append(('real', info['start'] + 80 - 32))
             else:
                 info = B.make_planted_block(w, arg['payload'],
                                             pre=arg['pre'], post=arg['post'],
                                             rng=rng, level=level)
                 plain += info['plain']
+                POS.append(('host', info['start'] + 80 - 32))
+                POS.append(('spurious', info['payload_at'] + 80 - 32))
             cc = B.combine(cc, info['crc'])
         w.put(48, B.EOS_MAGIC)
         w.put(32, cc)
@@ -69,6 +95,7 @@ def planted_streams(rng, quick=True):
             continue
         out.append(('plant-%s-%d' % (kind, len(out)), data, plain,
                     'in-coded-data:' + kind))
+        POSITIONS[out[-1][0]] = list(POS)
     # spurious headers in trailing data, including complete valid streams
     # after one garbage byte
     base, plain = build([('real', reals[0]), ('real', reals[1])])
